@@ -153,6 +153,10 @@ def run(ctx: Ctx) -> Result:
         al_ = [f'FK{code}', f'OP_FK{code}'] if ci_ % 2 == 0 else [f'KNOPF{code}', f'OP_FK{code}']
         srcs_new = [f'{name} d{n}' for n in (0, 1, 3, 127)] + [f'{name.lower()} x{n:02x}' for n in (0, 3, 0x80, 0xff)] + [f'{al_[0]} d2', f'{al_[1].lower()} d2']
         srcs_old = [f'NOP{code} d{n}' for n in (0, 1, 3, 127)] + [f'nop{code} x{n:02x}' for n in (0, 3, 0x80, 0xff)] + [f'NOP{code} d2', f'NOP{code} d2']
+        # ... and inside every block construct (name and alias alike)
+        blocks_ = ['true loop {{ {0} d2 false }}', 'try {{ {0} d2 }} except {{ {0} d1 }}', 'true if {{ {0} d2 }} else {{ {0} d1 }}', 'true if {{ true loop {{ {0} d0 false }} }}', 'true if ( {0} d0 ) {{ {0} d1 }}']
+        srcs_new += [b_.format(al_[0]) for b_ in blocks_] + [b_.format(name) for b_ in blocks_] + [b_.format(al_[0].lower()) for b_ in blocks_[:2]] + [f'def 0 {{ {name} d2 }}']
+        srcs_old += [b_.format(f'NOP{code}') for b_ in blocks_] * 2 + [b_.format(f'NOP{code}') for b_ in blocks_[:2]] + [f'def 0 {{ NOP{code} d2 }}']
         base = {'repo': REPO, 'code': code, 'name': name, 'aliases': al_, 'auth': scripts}
         reqs.append(({**base, 'kind': None, 'compile': srcs_old, 'decompile': [bytes([code, 3]).hex()]}, None))
         # an install attempt that is refused (name without the OP_ prefix) must leave the byte an ordinary NOP
